@@ -109,7 +109,7 @@ def check(ctx):
     ctx.rule(rid, 'jet lookup, reserved jets, arity and result guards: decision tables of CallName::analyze and Call::analyze (+ helpers) equal the reviewed table')
     table = guards.load_table()
     guards.compare(ctx, rid, ['<ast::CallName as ast::AbstractSyntaxTree>::analyze', '<ast::Call as ast::AbstractSyntaxTree>::analyze',
-                              '<ast::Call as ast::AbstractSyntaxTree>::analyze::check_argument_types', '<ast::Call as ast::AbstractSyntaxTree>::analyze::check_output_type'], table, 'call analysis')
+                              '<ast::Call as ast::AbstractSyntaxTree>::analyze::check_argument_types', '<ast::Call as ast::AbstractSyntaxTree>::analyze::check_output_type'], table, 'call analysis', guards.GUARD_FIELDS)
     an = ctx.anchor(fx, '<ast::Call as ast::AbstractSyntaxTree>::analyze')
     for kind, p, ret in explore(ctx, an):
         if kind != 'RET' or not p.conds or p.conds[0][1] != 'Jet':
